@@ -168,6 +168,8 @@ def click_commands(module):
         group = None
         params = []
         for d in f.node.decorator_list:
+            if isinstance(d, ast.Name) and isinstance(module.assigns.get(d.id), ast.Call):
+                d = module.assigns[d.id]  # `shared_option = click.option(...)` at module level, applied as `@shared_option`
             if not isinstance(d, ast.Call):
                 continue
             nm = A.dotted(d.func) or ""
@@ -383,7 +385,29 @@ def _calls_named(fn_node, name):
     return out
 
 
-def _reaches(repo, f, fd: FlowDeps, deps: Deps, py, callee, formal, value_typed=False):
+def _reaches(repo, f, fd: FlowDeps, deps: Deps, py, callee, formal, value_typed=False, _depth=0):
+    ok, why = _reaches_here(repo, f, fd, deps, py, callee, formal, value_typed)
+    if ok or _depth >= 2:
+        return ok, why
+    # the command hands the option to a helper of its own module (`_configure_backend(backend, optimizer, optconf)`): the
+    # question continues there, about the helper's parameter that receives it
+    for c in A.calls_in(f.node):
+        if not isinstance(c.func, ast.Name):
+            continue
+        kind, g = repo.resolve_name(f.module, c.func.id)
+        if kind != "func" or g.module is not f.module or g.node is f.node or g.cls is not None:
+            continue
+        b = A.bind_args(c, g.node)
+        st = fd.stmt_of.get(id(c))
+        for formal_g, actual in b.items():
+            if isinstance(actual, ast.AST) and fd.depends_on(actual, py, at=st):
+                ok2, why2 = _reaches(repo, g, FlowDeps(g.node), Deps(g.node), formal_g, callee, formal, value_typed, _depth + 1)
+                if ok2:
+                    return True, f"through {g.qualname}({formal_g}): {why2}"
+    return ok, why
+
+
+def _reaches_here(repo, f, fd: FlowDeps, deps: Deps, py, callee, formal, value_typed=False):
     if callee == "@open":
         for c in A.calls_in(f.node):
             if A.call_attr(c) in ("open", "open_file") and c.args and fd.depends_on(c.args[0], py, at=fd.stmt_of.get(id(c))):
